@@ -478,32 +478,69 @@ func checkSocksWatchdog(p *Prog, r *Report, scan *ssa.Function) {
 	for _, g := range GoClosures(scan) {
 		wd = g
 	}
-	if mk == nil || wd == nil {
-		r.Viol("C09.R4", name+"/watchdog", pos, "the function performing the protocol I/O starts a cancellation watchdog with its own stop channel", "no stop channel / goroutine in Scan (a watchdog started in a helper stops when the helper returns)")
-		return
-	}
-	// deferred close of that channel, registered before the I/O
-	closes := deferredCloses(scan)
-	okClose := false
-	for _, c := range closes {
-		for _, o := range p.Origins(c) {
-			if o == ssa.Value(mk) {
-				okClose = true
-			}
-		}
-	}
-	// no path closes it twice / no explicit close besides the defer
-	explicit := 0
+	// the stop signal may also be a context of its own: context.WithCancel(context.Background()) whose cancel
+	// function is deferred (a context derived from the probe's ctx would fire together with it and could win
+	// the select, so only a root context counts)
+	var stopCtx, stopCancel ssa.Value
 	for _, b := range scan.Blocks {
 		for _, in := range b.Instrs {
-			if c, ok := in.(*ssa.Call); ok {
-				if bi, ok := c.Call.Value.(*ssa.Builtin); ok && bi.Name() == "close" {
-					explicit++
+			c, ok := in.(*ssa.Call)
+			if !ok || calleeFull(&c.Call) != "context.WithCancel" || len(c.Call.Args) != 1 {
+				continue
+			}
+			root, isRoot := c.Call.Args[0].(*ssa.Call)
+			if !isRoot || (calleeFull(&root.Call) != "context.Background" && calleeFull(&root.Call) != "context.TODO") {
+				continue
+			}
+			for _, ref := range *c.Referrers() {
+				if ex, isEx := ref.(*ssa.Extract); isEx {
+					if ex.Index == 0 {
+						stopCtx = ex
+					} else {
+						stopCancel = ex
+					}
 				}
 			}
 		}
 	}
-	r.Check(okClose && explicit == 0, "C09.R4", name+"/stop-channel", pos, "the watchdog's stop channel is closed exactly once, by a defer of the probing function (no leak, no double close)", fmt.Sprintf("deferred close=%v explicit closes=%d", okClose, explicit))
+	if mk == nil && stopCtx != nil && stopCancel != nil && wd != nil {
+		okClose := false
+		for _, d := range Deferred(scan) {
+			for _, o := range p.Origins(d.Call.Value) {
+				if o == stopCancel {
+					okClose = true
+				}
+			}
+		}
+		r.Check(okClose, "C09.R4", name+"/stop-channel", pos, "the watchdog's stop channel is closed exactly once, by a defer of the probing function (no leak, no double close)", "the stop context's cancel function is not deferred")
+	} else if mk == nil || wd == nil {
+		r.Viol("C09.R4", name+"/watchdog", pos, "the function performing the protocol I/O starts a cancellation watchdog with its own stop channel", "no stop channel / goroutine in Scan (a watchdog started in a helper stops when the helper returns)")
+		return
+	}
+	if mk != nil {
+		// deferred close of that channel, registered before the I/O
+		closes := deferredCloses(scan)
+		okClose := false
+		for _, c := range closes {
+			for _, o := range p.Origins(c) {
+				if o == ssa.Value(mk) {
+					okClose = true
+				}
+			}
+		}
+		// no path closes it twice / no explicit close besides the defer
+		explicit := 0
+		for _, b := range scan.Blocks {
+			for _, in := range b.Instrs {
+				if c, ok := in.(*ssa.Call); ok {
+					if bi, ok := c.Call.Value.(*ssa.Builtin); ok && bi.Name() == "close" {
+						explicit++
+					}
+				}
+			}
+		}
+		r.Check(okClose && explicit == 0, "C09.R4", name+"/stop-channel", pos, "the watchdog's stop channel is closed exactly once, by a defer of the probing function (no leak, no double close)", fmt.Sprintf("deferred close=%v explicit closes=%d", okClose, explicit))
+	}
 	// watchdog body: select{ctx.Done -> conn.Close ; stop}
 	okW, whyW := true, ""
 	sawDone, sawStop := false, false
@@ -523,7 +560,9 @@ func checkSocksWatchdog(p *Prog, r *Report, scan *ssa.Function) {
 				continue
 			}
 			st := e.Sel.States[e.Chosen]
-			if isCtxDone(st.Chan) {
+			if mk == nil && stopCtx != nil && isCtxDone(st.Chan) && reachesThroughHelpers(p, ctxOfDone(st.Chan), stopCtx, 0) {
+				sawStop = true
+			} else if isCtxDone(st.Chan) {
 				sawDone = true
 				// ctx is the probe's ctx
 				okCtx := false
@@ -544,7 +583,7 @@ func checkSocksWatchdog(p *Prog, r *Report, scan *ssa.Function) {
 				if !closed {
 					okW, whyW = false, "cancellation does not close the connection (the probe waits for its deadlines)"
 				}
-			} else {
+			} else if mk != nil {
 				if reachesThroughHelpers(p, st.Chan, mk, 0) {
 					sawStop = true
 				}
